@@ -28,6 +28,8 @@ SHAPES = ['m_str', 'm_void', 'm_multi', 'm_obj', 'm_arr', 'm_bare', 'm_gen']
 WSGI_SHAPES = [s for s in SHAPES if s != 'm_bare']
 HOOK_SITES = ['call', 'return_object']
 FID_HOOK = 'funnel:listener-outside-try'
+FID_SWAP = 'wsgi:status-from-configured-protocol'
+SWAPPABLE = ['xml', 'soap11', 'soap12', 'json', 'jsonlist', 'yaml', 'msgpack', 'msgpackrpc', 'http']
 
 # root-cause finding ids (shared by the T1 switch witnesses and the T3 oracle)
 FID_GEN_FIRST = 'wsgi:generator-first-next-unguarded'
@@ -81,6 +83,8 @@ class Impl:
             plan = box['plan']
             if plan.get('preset'):
                 ctx.transport.resp_code = plan['preset']
+            if plan.get('swap') and plan.get('swap_at') != 'listener':
+                ctx.out_protocol = impl.mk[plan['swap']]()     # per-request output protocol
             if 'value' in step:
                 return conv(step['value'])
             raise impl.build_exception(ctx, step['raises'])
@@ -99,6 +103,11 @@ class Impl:
                         ctx.transport.resp_code = plan['preset']
                     raise impl.build_exception(ctx, h[2])
             return listener
+
+        def swap_listener(ctx):
+            plan = box['plan']
+            if plan and plan.get('swap') and plan.get('swap_at') == 'listener':
+                ctx.out_protocol = impl.mk[plan['swap']]()
 
         class S(Service):
             @rpc(Unicode, _returns=Unicode)
@@ -145,6 +154,7 @@ class Impl:
         for n in PROTOS:
             out = mk[n]()
             app = Application([S], 'tns', name='App' + n, in_protocol=HttpRpc(), out_protocol=out)
+            app.event_manager.add_listener('method_call', swap_listener)
             for site in HOOK_SITES:
                 app.event_manager.add_listener('method_' + site, make_listener(site, 'application'))
             for ev in ('method_return_object', 'method_exception_object', 'method_redirect', 'method_redirect_exception'):
@@ -691,6 +701,9 @@ def measure_facts(impl):
     res = impl.run_loop('soap12', 'm_str', C12_NS_WITNESS)
     f['client12Ns'] = 'byNamespace' if (res.get('in_error') is not None and 'client_raised' not in res) else 'literalSoap'
     f['client12Strip'] = measure_strip(impl)
+    a = _status_int(impl.run('soap11', 'm_str', SWAP_WITNESS).get('status'))
+    b = _status_int(impl.run('json', 'm_str', dict(SWAP_WITNESS, swap='soap11')).get('status'))
+    f['statusAsker'] = 'requestProtocol' if (a, b) == (400, 500) else 'applicationProtocol'
     covered = []
     for site in HOOK_SITES:
         for level in ('application', 'service'):
@@ -700,6 +713,10 @@ def measure_facts(impl):
                 covered.append((site, level))
     f['hooksInTry'] = covered
     return f
+
+
+SWAP_WITNESS = {'swap': 'json', 'user': {'plain': {'raises': {'fault': {'cls': 'Fault', 'code': 'Client.Quota', 'str': 'quota exceeded',
+                                                                                 'detail': {'limit': {'max': '3'}}}}}}}
 
 
 def hook_witness(site, level):
@@ -761,20 +778,21 @@ def facts09 : Facts09 where
   serErr := .%s
   client12Ns := .%s
   client12Strip := %s
+  statusAsker := .%s
 
 end SpyneModel.Generated
 ''' % (', '.join('(.%s, .%s)' % ({'call': 'methodCall', 'return_object': 'returnObject'}[a], b) for a, b in f['hooksInTry']),
        ', '.join('(.%s, %d)' % kv for kv in f['dedTable']), f['clientTest'], max(f['clientStatus'], 0), max(f['defaultStatus'], 0),
        'none' if f['soapStatus'] is None else 'some %d' % f['soapStatus'], lean_text(f['genericCode']), fs,
        b(f['errorPathKeepsStatus']), lean_text(f['env11Prefix']), lean_text(f['env12Prefix']), b(f['ignoreEmptyActor']),
-       f['soap12Detail'], b(f['genFirstGuarded']), f['serErr'], f['client12Ns'], b(f['client12Strip']))
+       f['soap12Detail'], b(f['genFirstGuarded']), f['serErr'], f['client12Ns'], b(f['client12Strip']), f['statusAsker'])
 
 
 GOOD = {'hooksInTry': ALL_HOOKS, 'dedTable': [('tooLong', 413), ('notFound', 404), ('notAllowed', 405), ('invalidCred', 401)],
         'clientTest': 'eqOrDotPrefix', 'clientStatus': 400, 'defaultStatus': 500, 'soapStatus': 500, 'genericCode': 'Server',
         'faultString': ('constant', 'Internal Error'), 'errorPathKeepsStatus': True, 'env11Prefix': 'soap11env',
         'env12Prefix': 'soap12env', 'soap12Detail': 'children', 'genFirstGuarded': True, 'serErr': 'funnelled',
-        'client12Ns': 'byNamespace'}
+        'client12Ns': 'byNamespace', 'statusAsker': 'requestProtocol'}
 # facts with a dedicated root-cause finding id and witness (proto, shape, plan); the others are reported by the
 # T3 oracle under its own ids (status:…, leak:…, intact:…)
 SWITCH = {'soap12Detail': (FID_S12_DETAIL, ('wsgi', 'soap12', 'm_str', S12_DETAIL_WITNESS),
@@ -787,6 +805,10 @@ SWITCH = {'soap12Detail': (FID_S12_DETAIL, ('wsgi', 'soap12', 'm_str', S12_DETAI
                      'it is replaced by the generic Server / Internal Error fault'),
           'errorPathKeepsStatus': (FID_PRESET, ('wsgi', 'json', 'm_str', PRESET_WITNESS),
                                    'handle_error replaces a response status that was already set before the fault was raised'),
+          'statusAsker': (FID_SWAP, ('wsgi', 'soap11', 'm_str', SWAP_WITNESS),
+                          'when the user code replaces ctx.out_protocol for the request, the status of a fault is still the one of the '
+                          'configured protocol: a Client fault written as JSON by an application configured with Soap11 goes out with 500 '
+                          '(and the SOAP-written one of a JSON application with 400)'),
           'client12Ns': (FID_C12_NS, ('loop', 'soap12', 'm_str', C12_NS_WITNESS),
                          'the spyne Soap12 client cannot read the faults the spyne Soap12 server writes (needs the prefix "soap" to be '
                          'declared; AttributeError on the empty Role element): ctx.in_error is never set')}
@@ -948,8 +970,16 @@ def g_raised(rng, impl, proto, in_generator=False):
     return {'other': g_other(rng, in_generator)}
 
 
-def g_plan(rng, impl, proto, shape):
+def g_plan(rng, impl, proto, shape, allow_swap=True):
     marker = 'RetMark' + g_token(rng)
+    swap = None
+    if allow_swap and proto in SWAPPABLE and rng.random() < 0.2:
+        fam = lambda n: MODEL_PROTO[n] in ('soap11', 'soap12')
+        cands = [n for n in SWAPPABLE if n != proto]
+        if rng.random() < 0.6:
+            cands = [n for n in cands if fam(n) != fam(proto)]
+        swap = rng.choice(cands)
+    app_proto, proto = proto, (swap or proto)      # values are generated for the protocol that writes them
     if shape != 'm_gen' and rng.random() < 0.3:
         user = {'hook': [rng.choice(HOOK_SITES), rng.choice(['application', 'service']), g_raised(rng, impl, proto), {'value': marker}]}
     elif shape == 'm_gen':
@@ -972,6 +1002,12 @@ def g_plan(rng, impl, proto, shape):
             if 'redirect' in r:
                 r['redirect'] = 'fails'   # after a successful redirect out_object is [None]: only fits one return value
     plan = {'user': user, 'marker': marker}
+    if swap and raised_of(plan):
+        plan['swap'] = swap
+        if 'hook' in user and user['hook'][0] == 'call':
+            plan['swap_at'] = 'listener'
+        elif 'plain' in user and rng.random() < 0.4:
+            plan['swap_at'] = 'listener'
     if rng.random() < 0.04:
         plan['preset'] = rng.choice(['418 Teapot', '409 Conflict', '503 Service Unavailable'])
     return plan
@@ -1015,6 +1051,12 @@ def fixed_cases(impl):
                     shape = 'm_str' if ('redirect' in r or j % 2 == 0) else SHAPES[1 + (i + j) % 4]
                     out.append((shape, {'user': {'hook': [site, level, r, {'value': marker}]}, 'marker': marker}))
     out.append(('m_str', {'user': {'plain': {'value': 'RetMarkZqFixedOkXv'}}, 'marker': 'RetMarkZqFixedOkXv'}))
+    for i, sw in enumerate(SWAPPABLE):
+        for j, r in enumerate((rs[0], rs[1], rs[15], rs[-1])):
+            marker = 'RetMarkZqSwap%d%dXv' % (i, j)
+            out.append(('m_str', {'user': {'plain': {'raises': r}}, 'marker': marker, 'swap': sw, 'swap_at': ('listener' if j % 2 else 'body')}))
+        out.append(('m_str', {'user': {'hook': ['call', 'service', {'native': ['InvalidCredentialsError', ['no', {'u': 'm'}]]}, {'value': 'RetMarkZqSwapHXv'}]},
+                              'marker': 'RetMarkZqSwapHXv', 'swap': sw, 'swap_at': 'listener'}))
     out.append(('m_gen', {'user': {'gen': [{'value': 'RetMarkZqFixedOkXv'}, None]}, 'marker': 'RetMarkZqFixedOkXv'}))
     out.append(('m_str', {'user': {'plain': {'raises': F(code='Client.Pre')}}, 'marker': 'RetMarkZqFixedPreXv', 'preset': '418 Teapot'}))
     return out
@@ -1109,6 +1151,8 @@ class Oracle:
     def check(self, via, proto, shape, plan, rec, insts):
         """the statement of C09 on one executed case"""
         case = {'via': via, 'proto': proto, 'shape': shape, 'plan': plan}
+        swapped = bool(plan.get('swap'))
+        proto = plan.get('swap') or proto        # the protocol that writes the response decides body and status
         rs = raised_of(plan)
         u = plan['user']
         where = where_of(u)
@@ -1152,7 +1196,8 @@ class Oracle:
                 if status != _status_int(preset):
                     self.fail(FID_PRESET, 'the status %r set before the fault was raised is replaced by %s' % (preset, rec.get('status')), case)
             elif status != want and not preset:
-                self.fail(later_fid or 'status:%s:%s' % (proto, status_class(self.impl, inst)), 'status %s instead of the documented %d for %r'
+                self.fail(later_fid or (FID_SWAP if (swapped and self.facts['statusAsker'] != 'requestProtocol') else None) or
+                          'status:%s:%s' % (proto, status_class(self.impl, inst)), 'status %s instead of the documented %d for %r'
                           % (rec.get('status'), want, inst), case)
             if dec['code'] != inst.faultcode:
                 self.fail(later_fid or 'intact:%s:code' % proto, 'fault code %r arrives as %r' % (inst.faultcode, dec['code']), case)
@@ -1347,7 +1392,9 @@ def run(ctx):
             cases.append((proto, shape, g_plan(rng, impl, proto, shape)))
     n_run = 0
     for proto, shape, plan in cases:
-        if not plan_allowed(proto, plan):
+        if plan.get('swap') and (plan['swap'] == proto or proto not in SWAPPABLE):
+            continue
+        if not plan_allowed(plan.get('swap') or proto, plan):
             ctx.hit('skipped:outside-wire-vocabulary')
             continue
         n_run += 1
@@ -1358,11 +1405,13 @@ def run(ctx):
     loop_cases = []
     for proto in ('soap11', 'soap12', 'msgpackrpc'):
         for shape, plan in fixed:
+            if plan.get('swap'):
+                continue
             if shape in ('m_str', 'm_void', 'm_bare') or (shape == 'm_gen' and proto != 'msgpackrpc'):
                 loop_cases.append((proto, shape, plan))
         for _ in range((900 if ctx.thorough else 150) if proto != 'msgpackrpc' else 6):
             shape = rng.choice(['m_str', 'm_void', 'm_multi', 'm_obj', 'm_gen', 'm_bare'])
-            loop_cases.append((proto, shape, g_plan(rng, impl, proto, shape)))
+            loop_cases.append((proto, shape, g_plan(rng, impl, proto, shape, allow_swap=False)))
     for proto, shape, plan in loop_cases:
         if not plan_allowed(proto, plan, 'loop'):
             ctx.hit('skipped:outside-wire-vocabulary')
@@ -1403,6 +1452,10 @@ def run(ctx):
 
 def run_case(ctx, impl, oracle, add, via, proto, shape, plan, rec, insts):
     mp = MODEL_PROTO[proto]
+    app_proto, proto = proto, (plan.get('swap') or proto)       # from here on `proto` = the protocol that writes the response
+    if plan.get('swap'):
+        ctx.hit('swap:%s->%s' % ('soap' if mp in ('soap11', 'soap12') else 'other',
+                                 'soap' if MODEL_PROTO[proto] in ('soap11', 'soap12') else 'other'))
     u = plan['user']
     where = where_of(u)
     rs = raised_of(plan)
@@ -1411,7 +1464,7 @@ def run_case(ctx, impl, oracle, add, via, proto, shape, plan, rec, insts):
     ctx.hit('raised:' + (kind_of(rs[0]) if rs else 'nothing'))
     ctx.cov['traces_validated_against_impl'] += 1
     # T3
-    oracle.check(via, proto, shape, plan, rec, insts)
+    oracle.check(via, app_proto, shape, plan, rec, insts)
     # T2: funnel state right after process_request
     uj = user_json(impl, plan, insts)
     snap = rec.get('snap')
@@ -1429,7 +1482,7 @@ def run_case(ctx, impl, oracle, add, via, proto, shape, plan, rec, insts):
                             % (err, kind, insts[0]), {'via': via, 'proto': proto, 'shape': shape, 'plan': plan})
     # T2: the whole response
     preset = _status_int(plan['preset']) if plan.get('preset') else None
-    q = {'op': 'wsgi', 'proto': mp, 'preset': preset, 'user': uj}
+    q = {'op': 'wsgi', 'proto': mp, 'req': MODEL_PROTO[proto] if plan.get('swap') else None, 'preset': preset, 'user': uj}
     if 'escaped' in rec:
         out = {'escapes': True}
     else:
@@ -1443,7 +1496,7 @@ def run_case(ctx, impl, oracle, add, via, proto, shape, plan, rec, insts):
             out = {'status': _status_int(rec.get('status')), 'body': canon_wire(wire)}
             if is_fault:
                 d = ref_decode(proto, wire)
-                add({'op': 'decode', 'proto': mp, 'w': wire},
+                add({'op': 'decode', 'proto': MODEL_PROTO[proto], 'w': wire},
                     {'ok': {'code': cps(d['code']), 'str': cps(d['str']), 'actor': cps(d['actor']), 'detail': detail_json(d['detail']),
                             'lang': None}}, nontrivial=False)
         else:
@@ -1553,7 +1606,9 @@ def replay(ctx, obj):
         print('impl  : body=%r' % (rec.get('body', b'')[:1200],))
     uj = user_json(impl, plan, insts)
     preset = _status_int(plan['preset']) if plan.get('preset') else None
-    mod = ctx.model([{'op': 'wsgi', 'proto': MODEL_PROTO[proto], 'preset': preset, 'user': uj}])[0]
+    mod = ctx.model([{'op': 'wsgi', 'proto': MODEL_PROTO[proto], 'req': MODEL_PROTO[plan['swap']] if plan.get('swap') else None,
+                      'preset': preset, 'user': uj}])[0]
+    proto = plan.get('swap') or proto
     if 'body' in mod and 'status' in mod:
         try:
             d = ref_decode(proto, canon_wire(mod['body']))
